@@ -269,6 +269,11 @@ class Run:
                             (s["n_ref_mismatch"], json.dumps(s["ref_mismatches"][0])[:600]))
         for m in s["mismatches"]:
             self.add_violation({"kind": "vector", "detail": m, "records": [m.get("rec")]})
+        # observations outside the listed properties (specification growth): reported, never a violation
+        self.extra["beyond_property_comparisons"] = self.extra.get("beyond_property_comparisons", 0) + s.get("extra_checks", 0)
+        for m in s.get("extra_mismatches", [])[:5]:
+            log("  EXTRA-MISMATCH (behaviour modelled beyond the listed properties; not a violation): %s" % json.dumps(m)[:400])
+            self.extra.setdefault("beyond_property_mismatches", []).append(m)
         self.extra["n_mismatch_total"] = self.extra.get("n_mismatch_total", 0) + s["n_mismatch"]
         return s
 
